@@ -190,6 +190,10 @@ func (s *jsonStyle) value(sb *strings.Builder, v *TVal) {
 			sb.WriteString(s.intText(v.I))
 		}
 	case tDOUBLE:
+		if v.NumText != "" {
+			sb.WriteString(v.NumText)
+			return
+		}
 		if s.QuoteNums && s.t.Chance(1, 2, "num.quote") {
 			sb.WriteString(`"` + s.floatText(v.D) + `"`)
 		} else {
